@@ -74,6 +74,9 @@ class Slot:
             self.ok = False
             i += 1
         self.is_iter = "myIdx" in names and "parent" in names
+        self.has_iri = "iri" in names
+        # properties whose only literal kind is xsd:anyURI hold an IRI as that kind and have no separate iri field
+        self.ok_noiri = self.ok and not self.has_iri and {"unknown", "alias"} <= set(names)
         if not {"unknown", "iri", "alias"} <= set(names):
             self.ok = False
 
@@ -100,7 +103,7 @@ def cleared_except(slot, keep, recv="this"):
             continue
         f, flag, t = k
         cs.append("!%s.%s" % (recv, flag) if flag else "%s.%s == nil" % (recv, f))
-    if keep != "iri":
+    if keep != "iri" and getattr(slot, "has_iri", True):
         cs.append("%s.iri == nil" % recv)
     cs.append("%s.unknown == nil" % recv)
     return cs
@@ -360,7 +363,7 @@ def decode_chain(slot, raw, res, stats, where, pre="", extra=""):
             k[0][:-len("Member")], pre, prem, res, res, k[0], val, " && ".join(cleared_except(slot, k, res)), extra))
         oks.append(ok)
     nomap = "(%s.dyn != %s%s)" % (raw, MAPT, "".join(" || (" + " && ".join("!" + o for o in oks) + ")" if oks else ""))
-    noiri = "(%s.dyn != %s || !gIriTaken)" % (raw, STRT)
+    noiri = "(%s.dyn != %s || !gIriTaken)" % (raw, STRT) if slot.has_iri else "true"
     louts = []
     for k in lkinds:
         key = k[0][:-len("Member")].lower()
@@ -379,9 +382,10 @@ def decode_chain(slot, raw, res, stats, where, pre="", extra=""):
     allclear = []
     for k in slot.kinds:
         allclear.append("!%s.%s" % (res, k[1]) if k[1] else "%s.%s == nil" % (res, k[0]))
-    out.append("[C12] ensures anything_else_is_kept_as_unknown: %s%s ==> err_is_nil && %s != nil && %s.unknown == %s && %s.iri == nil%s%s" % (
-        pre, prem, res, res, raw, res, "".join(" && " + c for c in allclear), extra))
-    out.append("[C12] ensures an_iri_string_is_decoded_as_an_iri: %s%s.dyn == %s && gIriTaken ==> err_is_nil && %s != nil && %s.iri != nil && %s.unknown == nil%s%s" % (
+    out.append("[C12] ensures anything_else_is_kept_as_unknown: %s%s ==> err_is_nil && %s != nil && %s.unknown == %s%s%s%s" % (
+        pre, prem, res, res, raw, (" && %s.iri == nil" % res) if slot.has_iri else "", "".join(" && " + c for c in allclear), extra))
+    if slot.has_iri:
+      out.append("[C12] ensures an_iri_string_is_decoded_as_an_iri: %s%s.dyn == %s && gIriTaken ==> err_is_nil && %s != nil && %s.iri != nil && %s.unknown == nil%s%s" % (
         pre, raw, STRT, res, res, res, "".join(" && " + c for c in allclear), extra))
     return out
 
@@ -395,7 +399,7 @@ def emit_decoders(L, pkgpath, structs, methods, src, stats):
         if iname not in structs:
             continue
         slot = Slot(iname, structs[iname])
-        if not slot.ok or not slot.kinds or pa != "aliasMap":
+        if not (slot.ok or slot.ok_noiri) or not slot.kinds or pa != "aliasMap":
             stats["skipped_structs"].append(pkgpath + "." + fname)
             continue
         if not dec_in_tier(pkgpath, slot):
@@ -421,7 +425,7 @@ def emit_decoders(L, pkgpath, structs, methods, src, stats):
             continue
         slot = Slot(sname, structs[sname])
         key = tuple(pkgpath.split("/")[-2:])
-        if not slot.ok or not slot.kinds or pa != "aliasMap" or pm != "m" or key not in ONTOPROPS:
+        if not (slot.ok or slot.ok_noiri) or not slot.kinds or pa != "aliasMap" or pm != "m" or key not in ONTOPROPS:
             stats["skipped_structs"].append(pkgpath + "." + fname)
             continue
         op = ONTOPROPS[key]
@@ -433,7 +437,10 @@ def emit_decoders(L, pkgpath, structs, methods, src, stats):
         L.append("  [C11] requires manager_installed: mgr != nil")
         L.append("  [C11] ensures terminates_without_panic: true")
         L.append("  modifies gIriTaken")
-        L.append('  let A = (has(aliasMap, "%s") ? aliasMap["%s"] : "")' % (op["uri"], op["uri"]))
+        if op["uri"] is None:
+            L.append('  let A = ""')
+        else:
+            L.append('  let A = (has(aliasMap, "%s") ? aliasMap["%s"] : "")' % (op["uri"], op["uri"]))
         L.append('  let PN = (len(A) > 0 ? A + ":" + "%s" : "%s")' % (op["name"], op["name"]))
         if "langString" in op["range"]:
             L.append('  let PRESENT = (has(m, PN) || has(m, PN + "Map"))')
@@ -504,7 +511,7 @@ def emit_decoders(L, pkgpath, structs, methods, src, stats):
     for sname, fields in structs.items():
         slot = Slot(sname, fields)
         mname = "serialize" if slot.is_iter else "Serialize"
-        if not slot.ok or not slot.kinds or mname not in methods.get(sname, {}) or not dec_in_tier(pkgpath, slot):
+        if not (slot.ok or slot.ok_noiri) or not slot.kinds or mname not in methods.get(sname, {}) or not dec_in_tier(pkgpath, slot):
             continue
         ok_all = True
         cl = []
@@ -527,8 +534,11 @@ def emit_decoders(L, pkgpath, structs, methods, src, stats):
             stats["skipped_structs"].append(pkgpath + "." + sname + "." + mname)
             continue
         none = " && ".join("!(%s)" % e for e in earlier)
-        cl.append('[C12] ensures an_iri_is_written_as_its_string: %s && this.iri != nil ==> result1 == nil && result0.dyn == typetag("string") && unboxstr(result0) == str(this.iri)' % none)
-        cl.append("[C12] ensures otherwise_the_unknown_value_is_written_back: %s && this.iri == nil ==> result1 == nil && result0 == this.unknown" % none)
+        if slot.has_iri:
+            cl.append('[C12] ensures an_iri_is_written_as_its_string: %s && this.iri != nil ==> result1 == nil && result0.dyn == typetag("string") && unboxstr(result0) == str(this.iri)' % none)
+            cl.append("[C12] ensures otherwise_the_unknown_value_is_written_back: %s && this.iri == nil ==> result1 == nil && result0 == this.unknown" % none)
+        else:
+            cl.append("[C12] ensures otherwise_the_unknown_value_is_written_back: %s ==> result1 == nil && result0 == this.unknown" % none)
         L.append("func (%s.%s).%s" % (pkgpath, sname, mname))
         L.append("  params this")
         L.extend("  " + c for c in cl)
@@ -618,6 +628,8 @@ def load_ontoprops(repo):
         for mm in ontology.members_of(doc):
             if ontology.is_property(mm):
                 ONTOPROPS[(impldir, "property_" + mm["name"].lower())] = dict(name=mm["name"], uri=uri, range=ontology.ref_names(mm.get("range")))
+    # JSON-LD's own members carry no vocabulary alias
+    ONTOPROPS[("jsonld", "property_id")] = dict(name="id", uri=None, range=["anyURI"])
 
 
 def main():
